@@ -1340,3 +1340,189 @@ Proof.
   - inv_some. simpl in Hx'. congruence.
   - inv_some. simpl in Hx'. congruence.
 Qed.
+
+(* ------------------------------------------------------------------------------------------------ *)
+(* D20: the capacity stall                                                                          *)
+(* ------------------------------------------------------------------------------------------------ *)
+(* The loop is in its wait branch, all slots are taken by connections that are not being handled and not
+   waiting to expire: New (registered, idle) ones.  Nothing but TERM / loss of the parent changes that. *)
+Lemma getc_updc : forall c c' f s,
+  getc (updc c f s) c' = if Nat.eqb c c' then option_map f (getc s c) else getc s c'.
+Proof.
+  intros. unfold getc, updc. simpl. destruct (Nat.eqb_spec c c'). subst. apply nth_upd_eq. apply nth_upd_ne. auto.
+Qed.
+
+Definition quiet_st (v:cst) : bool := match v with CPending | CNew | CClosed => true | _ => false end.
+
+Definition stalled (g:cfg) (s:state) : Prop :=
+  alive s = true /\ orphan s = false /\ wconn g <= nr_conns s /\ keep s = [] /\
+  (forall c x, getc s c = Some x -> quiet_st (st x) = true) /\
+  (mpc s = MWait \/ exists now, mpc s = MPop now).
+
+Definition same_service (s s':state) : Prop :=
+  forall c x, getc s c = Some x -> exists x', getc s' c = Some x' /\ resp x' = resp x /\ st x' = st x.
+
+Lemma same_service_refl : forall s, same_service s s.
+Proof. intros s c x H. eauto. Qed.
+
+Lemma same_service_conns : forall s s', conns s' = conns s -> same_service s s'.
+Proof. intros s s' E c x H. exists x. unfold getc in *. rewrite E. auto. Qed.
+
+Lemma same_service_trans : forall a b c, same_service a b -> same_service b c -> same_service a c.
+Proof.
+  intros a b c H1 H2 k x H. destruct (H1 k x H) as [y [Hy [A1 A2]]]. destruct (H2 k y Hy) as [z [Hz [B1 B2]]].
+  exists z. split; auto. split; congruence.
+Qed.
+
+Definition benign (l:label) : Prop := l <> LTerm /\ l <> LOrphan.
+
+Lemma not_quiet_none : forall s c x, (forall c x, getc s c = Some x -> quiet_st (st x) = true) ->
+  getc s c = Some x -> is_handling (st x) = true -> False.
+Proof. intros. apply H in H0. destruct (st x); simpl in *; discriminate. Qed.
+
+Lemma stalled_step : forall g s l s', stalled g s -> benign l -> step g s l = Some s' ->
+  stalled g s' /\ same_service s s' /\ nr_conns s' = nr_conns s.
+Proof.
+  intros g s l s' [Hal [Hor [Hnr [Hk [Hq Hpc]]]]] [Hb1 Hb2] E.
+  destruct l; simpl in E; try congruence.
+  - (* main *) unfold main_step in E. destruct Hpc as [Hpc|[now Hpc]]; rewrite Hpc in E.
+    + rewrite Hor in E. inv_some. split; [|split; [apply same_service_conns; reflexivity|reflexivity]].
+      unfold stalled. simpl. repeat split; auto. right. eauto.
+    + rewrite Hk in E. inv_some. unfold head. rewrite Hal. simpl.
+      assert (Hlt : (nr_conns s <? wconn g) = false) by (apply Z.ltb_ge; lia). rewrite Hlt.
+      split; [|split; [apply same_service_conns; reflexivity|reflexivity]].
+      unfold stalled. simpl. repeat split; auto.
+  - destruct (n_running s <? threads g); try discriminate. unfold p_start in E.
+    destruct (getc s c) as [x|] eqn:Hx; try discriminate. destruct (st x) eqn:Hst; try discriminate.
+    exfalso. eapply not_quiet_none; eauto. rewrite Hst. auto.
+  - unfold p_handle in E. destruct (getc s c) as [x|] eqn:Hx; try discriminate. destruct (st x) eqn:Hst; try discriminate.
+    exfalso. eapply not_quiet_none; eauto. rewrite Hst. auto.
+  - unfold p_finish in E. destruct (getc s c) as [x|] eqn:Hx; try discriminate. destruct (st x) eqn:Hst; try discriminate.
+    exfalso. eapply not_quiet_none; eauto. rewrite Hst. auto.
+  - unfold p_finlock in E. destruct (getc s c) as [x|] eqn:Hx; try discriminate. destruct (st x) eqn:Hst; try discriminate.
+    exfalso. eapply not_quiet_none; eauto. rewrite Hst. auto.
+  - unfold p_cancel in E. destruct (getc s c) as [x|] eqn:Hx; try discriminate. destruct (st x) eqn:Hst; try discriminate.
+    exfalso. eapply not_quiet_none; eauto. rewrite Hst. auto.
+  - inv_some. split; [|split; [|reflexivity]].
+    + unfold stalled. simpl. repeat split; auto. intros c x H. unfold getc in *. simpl in H.
+      destruct (lt_dec c (length (conns s))).
+      * rewrite nth_error_app1 in H by auto. eauto.
+      * rewrite nth_error_app2 in H by lia. destruct (c - length (conns s))%nat; simpl in H.
+        inversion H. auto. destruct n0; discriminate.
+    + intros c x H. exists x. split; auto. unfold getc in *. simpl. rewrite nth_error_app1; auto.
+      apply nth_error_Some. congruence.
+  - destruct (getc s c) as [x|] eqn:Hx; try discriminate. destruct (eof x); try discriminate.
+    assert (G : forall f, (forall y, st (f y) = st y /\ resp (f y) = resp y) ->
+                stalled g (updc c f s) /\ same_service s (updc c f s) /\ nr_conns (updc c f s) = nr_conns s).
+    { intros f Hf. split; [|split; [|reflexivity]].
+      - unfold stalled. simpl. repeat split; auto. intros c' x' H. rewrite getc_updc in H.
+        destruct (Nat.eqb_spec c c'). subst. rewrite Hx in H. simpl in H. inversion H. destruct (Hf x) as [A _]. rewrite A. eauto.
+        eauto.
+      - intros c' x' H. rewrite getc_updc. destruct (Nat.eqb_spec c c'). subst. rewrite Hx. simpl.
+        rewrite Hx in H. inversion H; subst. destruct (Hf x') as [A B]. eauto. eauto. }
+    destruct (st x); inv_some; try (apply G; intro; simpl; auto; fail);
+      (split; [unfold stalled; repeat split; auto | split; [apply same_service_conns; reflexivity | reflexivity]]).
+  - destruct (getc s c) as [x|] eqn:Hx; try discriminate. destruct (eof x); try discriminate. inv_some.
+    split; [|split; [|reflexivity]].
+    + unfold stalled. simpl. repeat split; auto. intros c' x' H. rewrite getc_updc in H.
+      destruct (Nat.eqb_spec c c'). subst. rewrite Hx in H. simpl in H. inversion H. simpl. eauto. eauto.
+    + intros c' x' H. rewrite getc_updc. destruct (Nat.eqb_spec c c'). subst. rewrite Hx. simpl.
+      rewrite Hx in H. inversion H; subst. eauto. eauto.
+  - inv_some. split; [|split; [apply same_service_conns; reflexivity|reflexivity]]. unfold stalled. simpl. repeat split; auto.
+Qed.
+
+(* no sequence of client actions, clock ticks, loop iterations ever gets a request on these connections served,
+   notices a client that left, or frees a slot *)
+Theorem capacity_stall_forever : forall g ls s s', stalled g s -> Forall benign ls -> run g s ls = Some s' ->
+  stalled g s' /\ same_service s s' /\ nr_conns s' = nr_conns s.
+Proof.
+  induction ls; simpl; intros s s' H F E.
+  - inv_some. split; auto. split. apply same_service_refl. auto.
+  - inversion F; subst. destruct (step g s a) as [s1|] eqn:E1; simpl in E; try discriminate.
+    destruct (stalled_step _ _ _ _ H H2 E1) as [A [B C]].
+    destruct (IHls _ _ A H3 E) as [A' [B' C']]. split; auto. split. eapply same_service_trans; eauto. lia.
+Qed.
+
+(* ---- witnesses ---- *)
+Definition g20 : cfg := mkCfg 1 1 2 0 1.
+Definition ls20 : list label :=
+  [LConnect; LMain [EvAcc 0%nat] false; LMain [] false; LMain [] false; LMain [] false; LMain [] false].
+Definition the (o:option state) (d:state) : state := match o with Some s => s | None => d end.
+Definition s20 : state := the (run g20 (init g20) ls20) (init g20).
+Definition s20a : state := the (step g20 s20 (LSend 0%nat [KA])) s20.       (* a request arrives *)
+Definition s20b : state := the (step g20 s20 (LCClose 0%nat)) s20.          (* or the client leaves *)
+
+Lemma s20_run : run g20 (init g20) ls20 = Some s20.
+Proof. vm_compute. reflexivity. Qed.
+
+Lemma s20_stalled : stalled g20 s20.
+Proof.
+  unfold stalled. repeat split; try (vm_compute; reflexivity); try (vm_compute; discriminate).
+  - intros c x H. destruct c as [|[|c]]; vm_compute in H; try discriminate. inversion H. reflexivity.
+  - left. vm_compute. reflexivity.
+Qed.
+
+Lemma s20a_stalled : stalled g20 s20a.
+Proof.
+  unfold stalled. repeat split; try (vm_compute; reflexivity); try (vm_compute; discriminate).
+  - intros c x H. destruct c as [|[|c]]; vm_compute in H; try discriminate. inversion H. reflexivity.
+  - left. vm_compute. reflexivity.
+Qed.
+
+Lemma s20b_stalled : stalled g20 s20b.
+Proof.
+  unfold stalled. repeat split; try (vm_compute; reflexivity); try (vm_compute; discriminate).
+  - intros c x H. destruct c as [|[|c]]; vm_compute in H; try discriminate. inversion H. reflexivity.
+  - left. vm_compute. reflexivity.
+Qed.
+
+Lemma s20a_reach : reachable g20 s20a.
+Proof. exists (ls20 ++ [LSend 0%nat [KA]]). vm_compute. reflexivity. Qed.
+
+Lemma s20b_reach : reachable g20 s20b.
+Proof. exists (ls20 ++ [LCClose 0%nat]). vm_compute. reflexivity. Qed.
+
+Theorem served_if_thread_free_refuted : exists g s c x,
+  reachable g s /\ getc s c = Some x /\ st x = CNew /\ In c (regd s) /\ sockbuf x = [KA] /\ n_running s < threads g
+  /\ forall ls s', Forall benign ls -> run g s ls = Some s' ->
+       exists x', getc s' c = Some x' /\ resp x' = 0%nat /\ st x' = CNew.
+Proof.
+  exists g20, s20a, 0%nat. eexists. split. apply s20a_reach.
+  split. vm_compute. reflexivity. split. reflexivity. split. vm_compute. auto. split. reflexivity.
+  split. vm_compute. reflexivity.
+  intros ls s' F E. destruct (capacity_stall_forever _ _ _ _ s20a_stalled F E) as [_ [S _]].
+  destruct (S 0%nat _ eq_refl) as [x' [Hx' [A B]]]. exists x'. split; auto.
+Qed.
+
+Theorem returns_to_zero_refuted : exists g s,
+  reachable g s /\ (forall c x, getc s c = Some x -> eof x = true) /\ n_running s = 0
+  /\ forall ls s', Forall benign ls -> run g s ls = Some s' -> nr_conns s' = 1.
+Proof.
+  exists g20, s20b. split. apply s20b_reach. split.
+  - intros c x H. destruct c as [|[|c]]; vm_compute in H; try discriminate. inversion H. reflexivity.
+  - split. vm_compute. reflexivity.
+    intros ls s' F E. destruct (capacity_stall_forever _ _ _ _ s20b_stalled F E) as [_ [_ N]]. rewrite N. reflexivity.
+Qed.
+
+Definition g21 : cfg := mkCfg 1 2 1 0 1.
+Definition m0 : label := LMain [] false.
+Definition ls21 : list label :=
+  [LConnect; LMain [EvAcc 0%nat] false; m0; m0; m0; m0; LSend 0%nat [KA; KA];
+   LMain [EvRd 0%nat] false; m0; m0; m0; LStart 0%nat; LHandle 0%nat; LFinish 0%nat; LFinLock 0%nat;
+   LMain [] false; m0; m0; LTick; LTick; LMain [] false; m0; m0; m0; m0].
+
+Theorem pipelined_request_dropped : exists g ls s x,
+  runr g (init g) ls = Some s /\ getc s 0%nat = Some x
+  /\ st x = CClosed /\ resp x = 1%nat /\ pbuf x = [KA] /\ eof x = false.
+Proof.
+  exists g21, ls21. eexists. eexists. split. vm_compute. reflexivity.
+  split. vm_compute. reflexivity. repeat split.
+Qed.
+
+(* after the first response the connection is idle in _keep, its second request sits in the parser and the
+   selector does not report it *)
+Example pipelined_invisible :
+  let s := the (runr g21 (init g21) (firstn 15 ls21)) (init g21) in
+  exists x, getc s 0%nat = Some x /\ st x = CKeep /\ pbuf x = [KA] /\ resp x = 1%nat
+            /\ ev_ready s (EvRd 0%nat) = false /\ n_running s = 0.
+Proof. vm_compute. eexists. repeat split. Qed.
